@@ -76,8 +76,9 @@ fn no_stray_counts(except: usize) {
 fn rg_attempt(budget: u8, foreign_kinds: bool) {
     l2_ledger();
     let stored = any_obj();
-    let storage: AtomicPtr<Obj> = AtomicPtr::new(model::addr(stored) as *mut Obj);
-    let helper = list_h::node_get();
+    let storage: AtomicPtr<Obj> = AtomicPtr::new(model::ptr(stored) as *mut Obj);
+    let helper = list_h::fresh_node();
+    list_h::setup_thread_node();
     LocalNode::with(|l| {
         let node = list_h::local_node(l).unwrap();
         havoc_occupancy(l);
@@ -141,6 +142,8 @@ fn rg_attempt(budget: u8, foreign_kinds: bool) {
 
 // @harness name=rg_attempt_lin props=C03,C01,C12,C02,C08 tier=quick flavour=nostd timeout=2400 fn=HybridProtection::attempt+LocalNode::new_fast+fast::Slots::get_debt+Debt::pay
 #[cfg_attr(kani, kani::proof)]
+#[cfg_attr(kani, kani::stub(crate::debt::LocalNode::with, crate::debt::verif_h::list_h::with_static))]
+#[cfg_attr(kani, kani::stub(crate::debt::Node::get, crate::debt::verif_h::list_h::node_get_unexpected))]
 #[cfg_attr(kani, kani::unwind(12))]
 pub(crate) fn rg_attempt_lin() {
     rg_attempt(2, false);
@@ -148,6 +151,8 @@ pub(crate) fn rg_attempt_lin() {
 }
 // @harness name=rg_attempt_lin2 props=C03,C01,C12 tier=thorough flavour=nostd timeout=7200 fn=HybridProtection::attempt
 #[cfg_attr(kani, kani::proof)]
+#[cfg_attr(kani, kani::stub(crate::debt::LocalNode::with, crate::debt::verif_h::list_h::with_static))]
+#[cfg_attr(kani, kani::stub(crate::debt::Node::get, crate::debt::verif_h::list_h::node_get_unexpected))]
 #[cfg_attr(kani, kani::unwind(12))]
 pub(crate) fn rg_attempt_lin2() {
     rg_attempt(3, false);
@@ -156,6 +161,8 @@ pub(crate) fn rg_attempt_lin2() {
 // Same, with re-allocated addresses possibly holding another pointee type / pointer kind (F3).
 // @harness name=rg_attempt_types props=C12 tier=quick flavour=nostd timeout=2400 fn=HybridProtection::attempt
 #[cfg_attr(kani, kani::proof)]
+#[cfg_attr(kani, kani::stub(crate::debt::LocalNode::with, crate::debt::verif_h::list_h::with_static))]
+#[cfg_attr(kani, kani::stub(crate::debt::Node::get, crate::debt::verif_h::list_h::node_get_unexpected))]
 #[cfg_attr(kani, kani::unwind(12))]
 pub(crate) fn rg_attempt_types() {
     rg_attempt(2, true);
@@ -165,8 +172,9 @@ pub(crate) fn rg_attempt_types() {
 fn rg_fallback(budget: u8, foreign_kinds: bool) {
     l2_ledger();
     let stored = any_obj();
-    let storage: AtomicPtr<Obj> = AtomicPtr::new(model::addr(stored) as *mut Obj);
-    let helper = list_h::node_get();
+    let storage: AtomicPtr<Obj> = AtomicPtr::new(model::ptr(stored) as *mut Obj);
+    let helper = list_h::fresh_node();
+    list_h::setup_thread_node();
     // A fixed generation: the value only flows through equality tests on the control word, and a
     // symbolic one makes CBMC encode the wrap-around branch (Node::get, list walk) at every call.
     // All generation values incl. the wrap are covered sequentially by l1_fallback / c13_wrap_load_arc.
@@ -223,6 +231,8 @@ fn rg_fallback(budget: u8, foreign_kinds: bool) {
 
 // @harness name=rg_fallback_lin props=C03,C01,C12,C02,C08 tier=quick flavour=nostd timeout=2400 fn=HybridProtection::fallback+LocalNode::new_helping+LocalNode::confirm_helping+helping::Slots::get_debt+helping::Slots::confirm+Debt::pay
 #[cfg_attr(kani, kani::proof)]
+#[cfg_attr(kani, kani::stub(crate::debt::LocalNode::with, crate::debt::verif_h::list_h::with_static))]
+#[cfg_attr(kani, kani::stub(crate::debt::Node::get, crate::debt::verif_h::list_h::node_get_unexpected))]
 #[cfg_attr(kani, kani::unwind(12))]
 pub(crate) fn rg_fallback_lin() {
     rg_fallback(2, false);
@@ -230,6 +240,8 @@ pub(crate) fn rg_fallback_lin() {
 }
 // @harness name=rg_fallback_lin2 props=C03,C01,C12 tier=thorough flavour=nostd timeout=7200 fn=HybridProtection::fallback
 #[cfg_attr(kani, kani::proof)]
+#[cfg_attr(kani, kani::stub(crate::debt::LocalNode::with, crate::debt::verif_h::list_h::with_static))]
+#[cfg_attr(kani, kani::stub(crate::debt::Node::get, crate::debt::verif_h::list_h::node_get_unexpected))]
 #[cfg_attr(kani, kani::unwind(12))]
 pub(crate) fn rg_fallback_lin2() {
     rg_fallback(3, false);
@@ -237,6 +249,8 @@ pub(crate) fn rg_fallback_lin2() {
 }
 // @harness name=rg_fallback_types props=C12 tier=quick flavour=nostd timeout=2400 fn=HybridProtection::fallback
 #[cfg_attr(kani, kani::proof)]
+#[cfg_attr(kani, kani::stub(crate::debt::LocalNode::with, crate::debt::verif_h::list_h::with_static))]
+#[cfg_attr(kani, kani::stub(crate::debt::Node::get, crate::debt::verif_h::list_h::node_get_unexpected))]
 #[cfg_attr(kani, kani::unwind(12))]
 pub(crate) fn rg_fallback_types() {
     rg_fallback(2, true);
@@ -249,14 +263,15 @@ pub(crate) fn rg_fallback_types() {
 fn rg_guard_release(into_inner: bool) {
     l2_ledger();
     let obj = any_obj();
-    let storage: AtomicPtr<Obj> = AtomicPtr::new(model::addr(obj) as *mut Obj);
-    let helper = list_h::node_get();
+    let storage: AtomicPtr<Obj> = AtomicPtr::new(model::ptr(obj) as *mut Obj);
+    let helper = list_h::fresh_node();
+    list_h::setup_thread_node();
     let node = list_h::node_get();
     let s = nd::below(9) as usize;
     // a validated guard: its slot holds the pointer and is covered
     list_h::poke_slot(node, s, model::addr(obj));
     let slot: &'static Debt = list_h::any_slot(node, s);
-    let prot: HybridProtection<TP> = HybridProtection { debt: Some(slot), ptr: ManuallyDrop::new(TP(model::addr(obj))) };
+    let prot: HybridProtection<TP> = HybridProtection { debt: Some(slot), ptr: ManuallyDrop::new(TP::adopt(obj)) };
     env::install(&storage, node, helper, 1);
     let e = env();
     // the guard under proof is the one that published this slot
@@ -299,8 +314,9 @@ pub(crate) fn rg_guard_into_inner() {
 fn rg_load<C: Config + Default>() {
     l2_ledger();
     let stored = any_obj();
-    let storage: AtomicPtr<Obj> = AtomicPtr::new(model::addr(stored) as *mut Obj);
-    let helper = list_h::node_get();
+    let storage: AtomicPtr<Obj> = AtomicPtr::new(model::ptr(stored) as *mut Obj);
+    let helper = list_h::fresh_node();
+    list_h::setup_thread_node();
     let g: usize = 8;
     let node = LocalNode::with(|l| {
         havoc_occupancy(l);
@@ -323,6 +339,8 @@ fn rg_load<C: Config + Default>() {
 
 // @harness name=rg_load_default props=C08,C03,C01 tier=thorough flavour=nostd timeout=7200 fn=HybridStrategy::load
 #[cfg_attr(kani, kani::proof)]
+#[cfg_attr(kani, kani::stub(crate::debt::LocalNode::with, crate::debt::verif_h::list_h::with_static))]
+#[cfg_attr(kani, kani::stub(crate::debt::Node::get, crate::debt::verif_h::list_h::node_get_unexpected))]
 #[cfg_attr(kani, kani::unwind(12))]
 pub(crate) fn rg_load_default() {
     rg_load::<DefaultConfig>();
